@@ -79,8 +79,10 @@ pub struct RefState {
     // --- faults under harness control
     pub down: bool,
     pub stale: bool,
-    /// the aggregator's own clock: its Cardano node is `skew` (0 or 1) epochs ahead of the signer's
+    /// the aggregator's own clock: its Cardano node is `skew` (-1, 0 or 1) epochs ahead of the signer's
     pub skew: i64,
+    /// epoch the signer's node showed when the running state-machine cycle began
+    pub cycle_start_node_epoch: i64,
     pub round_closed: bool,
     pub publish_fails_next: bool,
     pub register_ack_lost_next: bool,
@@ -377,8 +379,9 @@ impl SignaturePublisher for RefAgg {
                     },
                 }
             }
-            // a signer signs the beacons of the time point its own node shows
-            if e != node {
+            // a signer signs the beacons of the time point its own node shows (the one it read at the
+            // beginning of the cycle, if the epoch turned since)
+            if e != node && e != st.cycle_start_node_epoch {
                 finding(
                     st,
                     "C20/published-beacon-of-another-epoch",
